@@ -3,11 +3,11 @@ CONSTANTS
   Shapes <- c_Shapes
   MaxLeaves <- c_MaxLeaves
   MaxNodes <- c_MaxNodes
+  LeafKinds <- c_LeafKinds
   OpSet <- c_OpSet
   LogLeaves <- c_LogLeaves
   EmitMod <- c_EmitMod
   EmitRes <- c_EmitRes
-  LeafKinds <- c_LeafKinds
   PosLeaves <- c_PosLeaves
 INVARIANT TypeOK
 INVARIANT EmitInv
